@@ -17,15 +17,23 @@ Fixpoint csize (e : cexpr) : nat :=
   | ECompr _ r _ i c s res => S (csize r + csize i + csize c + csize s + csize res)
   end.
 
-(* stage of the proof: which constructs of the typed fragment are covered *)
-Fixpoint simple (e : cexpr) : bool :=
-  match e with
-  | EIdent _ | EConst _ => true
-  | ESelect a _ _ | ECall1 _ a => simple a
-  | ECall2 FIn a b => simple a && match b with EList _ => true | _ => false end
-  | ECall2 _ a b | EMeth1 _ a b => simple a && simple b
-  | _ => false
-  end.
+Lemma csize_compr x r acc i c s res :
+  (csize r < csize (ECompr x r acc i c s res) /\ csize s < csize (ECompr x r acc i c s res))%nat.
+Proof. cbn [csize]. lia. Qed.
+Lemma csize_call2 fn a b : (csize a < csize (ECall2 fn a b) /\ csize b < csize (ECall2 fn a b))%nat.
+Proof. cbn [csize]. lia. Qed.
+Lemma csize_call3 fn c a b : (csize c < csize (ECall3 fn c a b))%nat.
+Proof. cbn [csize]. lia. Qed.
+Lemma csize_list1 t : (csize t < csize (EList [t]))%nat.
+Proof. cbn. lia. Qed.
+
+Lemma cequal_int m k : cequal (VInt m) (VInt k) = (m =? k).
+Proof. unfold cequal, num_cmp. destruct (Z.compare_spec m k); subst; rewrite ?Z.eqb_refl; try reflexivity; symmetry; apply Z.eqb_neq; lia. Qed.
+
+Lemma lt_chain (a b c n : nat) : (a < b -> b < c -> c < S n -> a < n)%nat.
+Proof. lia. Qed.
+Lemma lt_chain4 (a b c d n : nat) : (a < b -> b < c -> c < d -> d < S n -> a < n)%nat.
+Proof. lia. Qed.
 
 Lemma paren_eval rm pf fg pd fs vars g : geval rm pf fg pd fs vars (paren g) = geval rm pf fg pd fs vars g.
 Proof. destruct g; reflexivity. Qed.
@@ -81,6 +89,25 @@ Section Sound.
   Notation CE := (ceval re_match parse_float fmt_g parse_dur).
   Notation GE := (geval re_match parse_float fmt_g parse_dur (go_fields rho)).
   Notation TR := (tr fname re_ok).
+
+(* stage of the proof: which constructs of the typed fragment are covered *)
+  Fixpoint simple (e : cexpr) : bool :=
+  match e with
+  | EIdent _ | EConst _ => true
+  | ESelect a _ _ | ECall1 _ a => simple a
+  | ECall2 FIn a b => simple a && match b with EList _ => true | _ => false end
+  | ECall2 _ a b | EMeth1 _ a b => simple a && simple b
+  | ECompr _ r _ _ _ step _ =>
+      simple r && match step with
+                  | ECall2 FAnd _ c | ECall2 FOr _ c | ECall3 FTernary c _ _ => simple c
+                  | ECall2 FAdd _ (EList [t]) =>
+                      (* a ternary inside a map transform would make the translator classify the macro as a filter *)
+                      simple t && match TR t with Some gt => negb (has_tern gt) | None => false end
+                  | _ => false
+                  end
+  | _ => false
+  end.
+
 
   Ltac inv H := inversion H; subst; clear H.
 
@@ -508,6 +535,482 @@ Section Sound.
       eapply arith_case; eassumption.
   Qed.
 
+  (* ---------- comprehensions ---------- *)
+  Fixpoint go_all (body : gval -> gres) (els : list gval) : gres :=
+    match els with
+    | [] => GV (GBool true)
+    | v :: rest => match body v with
+                   | GV (GBool true) => go_all body rest
+                   | GV (GBool false) => match go_all body rest with GStuck => GStuck | _ => GV (GBool false) end
+                   | GPanic => GPanic
+                   | _ => GStuck
+                   end
+    end.
+  Fixpoint go_exists (body : gval -> gres) (els : list gval) : gres :=
+    match els with
+    | [] => GV (GBool false)
+    | v :: rest => match body v with
+                   | GV (GBool false) => go_exists body rest
+                   | GV (GBool true) => match go_exists body rest with GStuck => GStuck | _ => GV (GBool true) end
+                   | GPanic => GPanic
+                   | _ => GStuck
+                   end
+    end.
+  Fixpoint go_exists_one (body : gval -> gres) (els : list gval) (count : Z) : gres :=
+    match els with
+    | [] => GV (GBool (count =? 1))
+    | v :: rest => match body v with
+                   | GV (GBool false) => go_exists_one body rest count
+                   | GV (GBool true) => go_exists_one body rest (count + 1)
+                   | GPanic => GPanic
+                   | _ => GStuck
+                   end
+    end.
+  Fixpoint go_filter (body : gval -> gres) (els : list gval) (acc : list gval) : gres :=
+    match els with
+    | [] => GV (GIface (rev acc))
+    | v :: rest => match body v with
+                   | GV (GBool false) => go_filter body rest acc
+                   | GV (GBool true) => go_filter body rest (match v with GBoxed w => w | w => w end :: acc)
+                   | GPanic => GPanic
+                   | _ => GStuck
+                   end
+    end.
+  Fixpoint go_map (body : gval -> gres) (els : list gval) (acc : list gval) : gres :=
+    match els with
+    | [] => GV (GIface (rev acc))
+    | v :: rest => match body v with
+                   | GV w => match default_type w with
+                             | GNilV => GStuck
+                             | w' => go_map body rest (match w' with GBoxed u => u | u => u end :: acc)
+                             end
+                   | o => o
+                   end
+    end.
+
+  Lemma gall_eval vars x gr gb ws : GE vars gr = GV (GSlice ws) ->
+    GE vars (GAll x gr gb) = go_all (fun v => GE ((x, v) :: vars) gb) ws.
+  Proof.
+    intro H. cbn [geval]. rewrite H. cbn [gbind range_elems]. clear H.
+    induction ws as [|w ws IH]; [reflexivity|]. cbn [go_all].
+    destruct (GE ((x, w) :: vars) gb) as [[]| |]; try reflexivity. destruct b; [exact IH | rewrite IH; reflexivity].
+  Qed.
+  Lemma gexists_eval vars x gr gb ws : GE vars gr = GV (GSlice ws) ->
+    GE vars (GExists x gr gb) = go_exists (fun v => GE ((x, v) :: vars) gb) ws.
+  Proof.
+    intro H. cbn [geval]. rewrite H. cbn [gbind range_elems]. clear H.
+    induction ws as [|w ws IH]; [reflexivity|]. cbn [go_exists].
+    destruct (GE ((x, w) :: vars) gb) as [[]| |]; try reflexivity. destruct b; [rewrite IH; reflexivity | exact IH].
+  Qed.
+  Lemma gexists_one_eval vars x gr gb ws : GE vars gr = GV (GSlice ws) ->
+    GE vars (GExistsOne x gr gb) = go_exists_one (fun v => GE ((x, v) :: vars) gb) ws 0.
+  Proof.
+    intro H. cbn [geval]. rewrite H. cbn [gbind range_elems]. clear H. generalize 0.
+    induction ws as [|w ws IH]; intro c; [reflexivity|]. cbn [go_exists_one].
+    destruct (GE ((x, w) :: vars) gb) as [[]| |]; try reflexivity. destruct b; apply IH.
+  Qed.
+  Lemma gfilter_eval vars x gr gb ws : GE vars gr = GV (GSlice ws) ->
+    GE vars (GFilter x gr gb) = go_filter (fun v => GE ((x, v) :: vars) gb) ws [].
+  Proof.
+    intro H. cbn [geval]. rewrite H. cbn [gbind range_elems]. clear H. generalize (@nil gval).
+    induction ws as [|w ws IH]; intro c; [reflexivity|]. cbn [go_filter].
+    destruct (GE ((x, w) :: vars) gb) as [[]| |]; try reflexivity. destruct b; apply IH.
+  Qed.
+  Lemma gmap_eval vars x gr gb ws : GE vars gr = GV (GSlice ws) ->
+    GE vars (GMapC x gr gb) = go_map (fun v => GE ((x, v) :: vars) gb) ws [].
+  Proof.
+    intro H. cbn [geval]. rewrite H. cbn [gbind range_elems]. clear H. generalize (@nil gval).
+    induction ws as [|w ws IH]; intro c; [reflexivity|]. cbn [go_map].
+    destruct (GE ((x, w) :: vars) gb) as [v| |]; try reflexivity. destruct (default_type v); try reflexivity; apply IH.
+  Qed.
+
+  (* cel-go's evalFold *)
+  Fixpoint cel_fold (cenv : cenv) (x acc : ident) (cond step : cexpr) (els : list cval) (a : cres) : option cres :=
+    match els with
+    | [] => Some a
+    | v :: rest =>
+        let env' := (x, CV v) :: (acc, a) :: cenv in
+        match CE env' cond with
+        | None => None
+        | Some (CV (VBool false)) => Some a
+        | Some _ => match CE env' step with
+                    | Some a' => cel_fold cenv x acc cond step rest a'
+                    | None => None
+                    end
+        end
+    end.
+
+  Lemma compr_eval cenv x r acc init cond step res vs a0 :
+    CE cenv r = Some (CV (VList vs)) -> CE cenv init = Some a0 ->
+    CE cenv (ECompr x r acc init cond step res) =
+    match cel_fold cenv x acc cond step vs a0 with
+    | Some a => CE ((acc, a) :: cenv) res
+    | None => None
+    end.
+  Proof.
+    intros Hr Hi. cbn [ceval]. rewrite Hr. cbn [iter_elems]. rewrite Hi.
+    match goal with |- match ?f vs a0 with _ => _ end = _ =>
+      assert (E : forall els a, f els a = cel_fold cenv x acc cond step els a)
+    end.
+    { induction els as [|v els IH]; intro a; [reflexivity|]. cbn [cel_fold].
+      destruct (CE ((x, CV v) :: (acc, a) :: cenv) cond) as [[[[]| | | | | | | | |]|]|]; try reflexivity;
+        destruct (CE ((x, CV v) :: (acc, a) :: cenv) step); try reflexivity; apply IH. }
+    rewrite E. reflexivity.
+  Qed.
+
+  Inductive tri := TT | TF | TE.
+  Definition tri_res (t : tri) : cres := match t with TT => CV (VBool true) | TF => CV (VBool false) | TE => CErr end.
+
+  Section Loops.
+    Variables (x acc : ident) (body : cexpr) (gb : gexpr) (te : sty) (cenv : cenv) (gvars : list (ident * gval)).
+    Hypothesis Hxa : bytes_eqb x acc = false.
+    Hypothesis Hbody : forall v w a, vrel te v w ->
+      R SBool (CE ((x, CV v) :: (acc, a) :: cenv) body) (GE ((x, w) :: gvars) gb).
+
+    Lemma acc_lookup v a : clookup ((x, CV v) :: (acc, a) :: cenv) acc = a.
+    Proof. cbn [clookup]. rewrite Hxa, bytes_eqb_refl. reflexivity. Qed.
+
+    Let gbody := fun w => GE ((x, w) :: gvars) gb.
+
+    (* all: @result starts true; loop while @not_strictly_false(@result); step @result && body *)
+    Lemma all_loop vs ws : Forall2 (vrel te) vs ws -> forall t,
+      exists r aN, go_all gbody ws = GV (GBool r) /\
+        cel_fold cenv x acc (ECall1 FNotStrictlyFalse (EIdent acc)) (ECall2 FAnd (EIdent acc) body) vs (tri_res t) = Some aN /\
+        match t with
+        | TT => aN = CErr \/ aN = CV (VBool r)
+        | TF => aN = CV (VBool false)
+        | TE => aN = CErr \/ (aN = CV (VBool false) /\ r = false)
+        end.
+    Proof.
+      induction 1 as [|v w vs ws Hvw _ IH]; intro t.
+      - exists true, (tri_res t). split; [reflexivity|]. split; [reflexivity|]. destruct t; cbn; auto.
+      - cbn [go_all cel_fold]. unfold gbody at 1.
+        destruct (R_bool _ _ (Hbody v w (tri_res t) Hvw)) as [b [Hg Hc]]. rewrite Hg.
+        cbn [ceval]. rewrite acc_lookup.
+        destruct t; cbn [tri_res cnsf] in Hc |- *.
+        + (* accumulator true *)
+          destruct b, Hc as [Hc | Hc]; rewrite Hc; cbn [cand].
+          * destruct (IH TT) as [r [aN [Hr [Hf Hm]]]]. cbn [tri_res] in Hf. rewrite Hf, Hr. exists r, aN. auto.
+          * destruct (IH TE) as [r [aN [Hr [Hf Hm]]]]. cbn [tri_res] in Hf. rewrite Hf, Hr. exists r, aN. split; [reflexivity|]. split; [reflexivity|].
+            destruct Hm as [Hm | [Hm ->]]; auto.
+          * destruct (IH TF) as [r [aN [Hr [Hf Hm]]]]. cbn [tri_res] in Hf. rewrite Hf, Hr. exists false, aN. subst aN. auto.
+          * destruct (IH TE) as [r [aN [Hr [Hf Hm]]]]. cbn [tri_res] in Hf. rewrite Hf, Hr. exists false, aN. split; [reflexivity|]. split; [reflexivity|].
+            destruct Hm as [Hm | [Hm _]]; auto.
+        + (* accumulator false: the loop stops *)
+          destruct (IH TF) as [r [aN [Hr _]]]. rewrite Hr.
+          exists (if b then r else false), (CV (VBool false)). split; [destruct b; reflexivity|]. auto.
+        + (* accumulator is an error *)
+          destruct b, Hc as [Hc | Hc]; rewrite Hc; cbn [cand].
+          * destruct (IH TE) as [r [aN [Hr [Hf Hm]]]]. cbn [tri_res] in Hf. rewrite Hf, Hr. exists r, aN. auto.
+          * destruct (IH TE) as [r [aN [Hr [Hf Hm]]]]. cbn [tri_res] in Hf. rewrite Hf, Hr. exists r, aN. auto.
+          * destruct (IH TF) as [r [aN [Hr [Hf Hm]]]]. cbn [tri_res] in Hf. rewrite Hf, Hr. exists false, aN. subst aN. auto.
+          * destruct (IH TE) as [r [aN [Hr [Hf Hm]]]]. cbn [tri_res] in Hf. rewrite Hf, Hr. exists false, aN. split; [reflexivity|]. split; [reflexivity|].
+            destruct Hm as [Hm | [Hm _]]; auto.
+    Qed.
+
+    (* exists: @result starts false; loop while @not_strictly_false(!@result); step @result || body *)
+    Lemma exists_loop vs ws : Forall2 (vrel te) vs ws -> forall t,
+      exists r aN, go_exists gbody ws = GV (GBool r) /\
+        cel_fold cenv x acc (ECall1 FNotStrictlyFalse (ECall1 FNot (EIdent acc))) (ECall2 FOr (EIdent acc) body) vs (tri_res t) = Some aN /\
+        match t with
+        | TF => aN = CErr \/ aN = CV (VBool r)
+        | TT => aN = CV (VBool true)
+        | TE => aN = CErr \/ (aN = CV (VBool true) /\ r = true)
+        end.
+    Proof.
+      induction 1 as [|v w vs ws Hvw _ IH]; intro t.
+      - exists false, (tri_res t). split; [reflexivity|]. split; [reflexivity|]. destruct t; cbn; auto.
+      - cbn [go_exists cel_fold]. unfold gbody at 1.
+        destruct (R_bool _ _ (Hbody v w (tri_res t) Hvw)) as [b [Hg Hc]]. rewrite Hg.
+        cbn [ceval]. rewrite acc_lookup.
+        destruct t; cbn [tri_res cnsf cnot negb] in Hc |- *.
+        + (* accumulator true: the loop stops *)
+          destruct (IH TT) as [r [aN [Hr _]]]. rewrite Hr.
+          exists (if b then true else r), (CV (VBool true)). split; [destruct b; reflexivity|]. auto.
+        + (* accumulator false *)
+          destruct b, Hc as [Hc | Hc]; rewrite Hc; cbn [cor].
+          * destruct (IH TT) as [r [aN [Hr [Hf Hm]]]]. cbn [tri_res] in Hf. rewrite Hf, Hr. exists true, aN. subst aN. auto.
+          * destruct (IH TE) as [r [aN [Hr [Hf Hm]]]]. cbn [tri_res] in Hf. rewrite Hf, Hr. exists true, aN. split; [reflexivity|]. split; [reflexivity|].
+            destruct Hm as [Hm | [Hm _]]; auto.
+          * destruct (IH TF) as [r [aN [Hr [Hf Hm]]]]. cbn [tri_res] in Hf. rewrite Hf, Hr. exists r, aN. auto.
+          * destruct (IH TE) as [r [aN [Hr [Hf Hm]]]]. cbn [tri_res] in Hf. rewrite Hf, Hr. exists r, aN. split; [reflexivity|]. split; [reflexivity|].
+            destruct Hm as [Hm | [Hm ->]]; auto.
+        + (* accumulator is an error *)
+          destruct b, Hc as [Hc | Hc]; rewrite Hc; cbn [cor].
+          * destruct (IH TT) as [r [aN [Hr [Hf Hm]]]]. cbn [tri_res] in Hf. rewrite Hf, Hr. exists true, aN. subst aN. auto.
+          * destruct (IH TE) as [r [aN [Hr [Hf Hm]]]]. cbn [tri_res] in Hf. rewrite Hf, Hr. exists true, aN. split; [reflexivity|]. split; [reflexivity|].
+            destruct Hm as [Hm | [Hm _]]; auto.
+          * destruct (IH TE) as [r [aN [Hr [Hf Hm]]]]. cbn [tri_res] in Hf. rewrite Hf, Hr. exists r, aN. auto.
+          * destruct (IH TE) as [r [aN [Hr [Hf Hm]]]]. cbn [tri_res] in Hf. rewrite Hf, Hr. exists r, aN. auto.
+    Qed.
+
+    (* exists_one: @result starts 0; step body ? @result + 1 : @result; result @result == 1.
+       The accumulator is a count, or an error from the first failing body on. *)
+    Lemma exists_one_loop vs ws : Forall2 (vrel te) vs ws -> forall (n : Z) (a : cres), (a = CV (VInt n) \/ a = CErr) ->
+      exists r aN, go_exists_one gbody ws n = GV (GBool r) /\
+        cel_fold cenv x acc (EConst (KBool true))
+          (ECall3 FTernary body (ECall2 FAdd (EIdent acc) (EConst (KInt 1))) (EIdent acc)) vs a = Some aN /\
+        (aN = CErr \/ exists m, aN = CV (VInt m) /\ r = (m =? 1)).
+    Proof.
+      induction 1 as [|v w vs ws Hvw _ IH]; intros n a Ha.
+      - exists (n =? 1), a. split; [reflexivity|]. split; [reflexivity|]. destruct Ha as [-> | ->]; eauto.
+      - cbn [go_exists_one cel_fold]. unfold gbody at 1.
+        destruct (R_bool _ _ (Hbody v w a Hvw)) as [b [Hg Hc]]. rewrite Hg.
+        cbn [ceval const_val]. rewrite acc_lookup.
+        destruct Hc as [Hc | Hc]; rewrite Hc.
+        + destruct b.
+          * (* body true: @result + 1 *)
+            destruct Ha as [-> | ->]; cbn [lift2 cadd].
+            -- unfold chk_i. destruct (in_i64 (n + 1)).
+               ++ destruct (IH (n + 1) (CV (VInt (n + 1))) (or_introl eq_refl)) as [r [aN [Hr [Hf Hm]]]]. rewrite Hf, Hr. eauto.
+               ++ destruct (IH (n + 1) CErr (or_intror eq_refl)) as [r [aN [Hr [Hf Hm]]]]. rewrite Hf, Hr. exists r, aN.
+                  split; [reflexivity|]. split; [reflexivity|]. left.
+                  (* once the accumulator is an error it stays one *)
+                  clear -Hf Hbody Hxa. revert Hf. generalize dependent aN. 
+                  assert (E : forall vs', forall aN', cel_fold cenv x acc (EConst (KBool true))
+                             (ECall3 FTernary body (ECall2 FAdd (EIdent acc) (EConst (KInt 1))) (EIdent acc)) vs' CErr = Some aN' -> aN' = CErr).
+                  { induction vs' as [|v' vs' IHv]; intros aN' H; [cbn in H; congruence|].
+                    cbn [cel_fold ceval const_val] in H. rewrite acc_lookup in H.
+                    destruct (CE ((x, CV v') :: (acc, CErr) :: cenv) body) as [[[[]| | | | | | | | |]|]|]; cbn [lift2] in H; try discriminate; apply IHv; exact H. }
+                  intros aN Hf. eapply E; eassumption.
+            -- destruct (IH (n + 1) CErr (or_intror eq_refl)) as [r [aN [Hr [Hf Hm]]]]. rewrite Hf, Hr. exists r, aN.
+               split; [reflexivity|]. split; [reflexivity|]. left.
+               assert (E : forall vs', forall aN', cel_fold cenv x acc (EConst (KBool true))
+                          (ECall3 FTernary body (ECall2 FAdd (EIdent acc) (EConst (KInt 1))) (EIdent acc)) vs' CErr = Some aN' -> aN' = CErr).
+               { induction vs' as [|v' vs' IHv]; intros aN' H; [cbn in H; congruence|].
+                 cbn [cel_fold ceval const_val] in H. rewrite acc_lookup in H.
+                 destruct (CE ((x, CV v') :: (acc, CErr) :: cenv) body) as [[[[]| | | | | | | | |]|]|]; cbn [lift2] in H; try discriminate; apply IHv; exact H. }
+               eapply E; eassumption.
+          * (* body false: @result unchanged *)
+            destruct (IH n a Ha) as [r [aN [Hr [Hf Hm]]]]. rewrite Hf, Hr. eauto.
+        + (* the body is an error: so is the step *)
+          assert (E : forall vs', forall aN', cel_fold cenv x acc (EConst (KBool true))
+                     (ECall3 FTernary body (ECall2 FAdd (EIdent acc) (EConst (KInt 1))) (EIdent acc)) vs' CErr = Some aN' -> aN' = CErr).
+          { induction vs' as [|v' vs' IHv]; intros aN' H; [cbn in H; congruence|].
+            cbn [cel_fold ceval const_val] in H. rewrite acc_lookup in H.
+            destruct (CE ((x, CV v') :: (acc, CErr) :: cenv) body) as [[[[]| | | | | | | | |]|]|]; cbn [lift2] in H; try discriminate; apply IHv; exact H. }
+          destruct (IH (if b then n + 1 else n) CErr (or_intror eq_refl)) as [r [aN [Hr [Hf Hm]]]]. rewrite Hf.
+          exists r, aN. split; [destruct b; exact Hr|]. split; [reflexivity|]. left. eapply E; eassumption.
+    Qed.
+
+    Lemma list1_eval v a : CE ((x, CV v) :: (acc, a) :: cenv) (EList [EIdent x]) = Some (CV (VList [v])).
+    Proof. cbn [ceval clookup]. rewrite bytes_eqb_refl. reflexivity. Qed.
+
+    (* filter: @result starts []; step body ? @result + [x] : @result *)
+    Lemma filter_loop vs ws : Forall2 (vrel te) vs ws -> forall (gacc : list gval) (a : cres),
+      ((exists l, a = CV (VList l) /\ length l = length gacc) \/ a = CErr) ->
+      exists ws' aN, go_filter gbody ws gacc = GV (GIface ws') /\
+        cel_fold cenv x acc (EConst (KBool true))
+          (ECall3 FTernary body (ECall2 FAdd (EIdent acc) (EList [EIdent x])) (EIdent acc)) vs a = Some aN /\
+        (aN = CErr \/ exists l', aN = CV (VList l') /\ length l' = length ws') /\
+        (length ws' <= length gacc + length ws)%nat.
+    Proof.
+      induction 1 as [|v w vs ws Hvw _ IH]; intros gacc a Ha.
+      - exists (rev gacc), a. split; [reflexivity|]. split; [reflexivity|]. rewrite rev_length. split; [|cbn; lia].
+        destruct Ha as [[l [-> Hl]] | ->]; eauto.
+      - cbn [go_filter cel_fold]. unfold gbody at 1.
+        destruct (R_bool _ _ (Hbody v w a Hvw)) as [b [Hg Hc]]. rewrite Hg.
+        change (CE ((x, CV v) :: (acc, a) :: cenv) (EConst (KBool true))) with (Some (CV (VBool true))). cbv iota.
+        change (CE ((x, CV v) :: (acc, a) :: cenv) (ECall3 FTernary body (ECall2 FAdd (EIdent acc) (EList [EIdent x])) (EIdent acc)))
+          with (match CE ((x, CV v) :: (acc, a) :: cenv) body with
+                | Some (CV (VBool true)) => CE ((x, CV v) :: (acc, a) :: cenv) (ECall2 FAdd (EIdent acc) (EList [EIdent x]))
+                | Some (CV (VBool false)) => CE ((x, CV v) :: (acc, a) :: cenv) (EIdent acc)
+                | Some _ => match CE ((x, CV v) :: (acc, a) :: cenv) (ECall2 FAdd (EIdent acc) (EList [EIdent x])),
+                                  CE ((x, CV v) :: (acc, a) :: cenv) (EIdent acc) with Some _, Some _ => Some CErr | _, _ => None end
+                | None => None
+                end).
+        change (CE ((x, CV v) :: (acc, a) :: cenv) (ECall2 FAdd (EIdent acc) (EList [EIdent x])))
+          with (match CE ((x, CV v) :: (acc, a) :: cenv) (EIdent acc), CE ((x, CV v) :: (acc, a) :: cenv) (EList [EIdent x]) with
+                | Some p, Some q => Some (lift2 cadd p q) | _, _ => None end).
+        rewrite list1_eval. change (CE ((x, CV v) :: (acc, a) :: cenv) (EIdent acc)) with (Some (clookup ((x, CV v) :: (acc, a) :: cenv) acc)).
+        rewrite acc_lookup.
+        destruct Hc as [Hc | Hc]; rewrite Hc.
+        + destruct b.
+          * destruct Ha as [[l [-> Hl]] | ->]; cbn [lift2 cadd].
+            -- destruct (IH (match w with GBoxed u => u | u => u end :: gacc) (CV (VList (l ++ [v])))) as [ws' [aN [Hr [Hf [Hm Hn]]]]].
+               { left. exists (l ++ [v]). split; [reflexivity|]. rewrite app_length. cbn. lia. }
+               rewrite Hf, Hr. exists ws', aN. repeat split; auto. cbn [length] in *. lia.
+            -- destruct (IH (match w with GBoxed u => u | u => u end :: gacc) CErr (or_intror eq_refl)) as [ws' [aN [Hr [Hf [Hm Hn]]]]].
+               rewrite Hf, Hr. exists ws', aN. repeat split; auto. cbn [length] in *. lia.
+          * destruct (IH gacc a Ha) as [ws' [aN [Hr [Hf [Hm Hn]]]]]. rewrite Hf, Hr. exists ws', aN. repeat split; auto. cbn [length]. lia.
+        + (* the body is an error: the accumulator becomes an error and stays one *)
+          assert (E : forall vs' aN', cel_fold cenv x acc (EConst (KBool true))
+                     (ECall3 FTernary body (ECall2 FAdd (EIdent acc) (EList [EIdent x])) (EIdent acc)) vs' CErr = Some aN' -> aN' = CErr).
+          { induction vs' as [|v' vs' IHv]; intros aN' H; [cbn in H; congruence|].
+            cbn [cel_fold] in H.
+            change (CE ((x, CV v') :: (acc, CErr) :: cenv) (EConst (KBool true))) with (Some (CV (VBool true))) in H. cbv iota in H.
+            change (CE ((x, CV v') :: (acc, CErr) :: cenv) (ECall3 FTernary body (ECall2 FAdd (EIdent acc) (EList [EIdent x])) (EIdent acc)))
+              with (match CE ((x, CV v') :: (acc, CErr) :: cenv) body with
+                    | Some (CV (VBool true)) => CE ((x, CV v') :: (acc, CErr) :: cenv) (ECall2 FAdd (EIdent acc) (EList [EIdent x]))
+                    | Some (CV (VBool false)) => CE ((x, CV v') :: (acc, CErr) :: cenv) (EIdent acc)
+                    | Some _ => match CE ((x, CV v') :: (acc, CErr) :: cenv) (ECall2 FAdd (EIdent acc) (EList [EIdent x])),
+                                      CE ((x, CV v') :: (acc, CErr) :: cenv) (EIdent acc) with Some _, Some _ => Some CErr | _, _ => None end
+                    | None => None
+                    end) in H.
+            change (CE ((x, CV v') :: (acc, CErr) :: cenv) (ECall2 FAdd (EIdent acc) (EList [EIdent x])))
+              with (match CE ((x, CV v') :: (acc, CErr) :: cenv) (EIdent acc), CE ((x, CV v') :: (acc, CErr) :: cenv) (EList [EIdent x]) with
+                    | Some p, Some q => Some (lift2 cadd p q) | _, _ => None end) in H.
+            rewrite list1_eval in H. change (CE ((x, CV v') :: (acc, CErr) :: cenv) (EIdent acc)) with (Some (clookup ((x, CV v') :: (acc, CErr) :: cenv) acc)) in H.
+            rewrite acc_lookup in H. cbn [lift2] in H.
+            destruct (CE ((x, CV v') :: (acc, CErr) :: cenv) body) as [[[[]| | | | | | | | |]|]|]; try discriminate; apply IHv; exact H. }
+          destruct (IH (if b then match w with GBoxed u => u | u => u end :: gacc else gacc) CErr (or_intror eq_refl)) as [ws' [aN [Hr [Hf [Hm Hn]]]]].
+          cbn [lift2]. rewrite Hf. exists ws', aN. split; [destruct b; exact Hr|]. split; [reflexivity|]. split; [left; eapply E; eassumption|].
+          destruct b; cbn [length] in *; lia.
+    Qed.
+  End Loops.
+
+  Definition boxable (t : sty) : bool :=
+    match t with
+    | SInt _ | SF64 | SStr | SBool | SKStr _ => true
+    | SKInt _ z => in_kind IInt z
+    | _ => false
+    end.
+
+  Lemma boxable_default t v w : boxable t = true -> vrel t v w -> default_type w <> GNilV.
+  Proof.
+    destruct t; cbn [boxable vrel]; try discriminate; intros Hb Hv.
+    - destruct Hv as [z [_ [-> _]]]. discriminate.
+    - destruct Hv as [b [_ ->]]. discriminate.
+    - destruct Hv as [s [_ ->]]. discriminate.
+    - destruct Hv as [b [_ ->]]. discriminate.
+    - destruct Hv as [_ ->]. cbn [default_type]. rewrite Hb. discriminate.
+    - destruct Hv as [_ ->]. discriminate.
+  Qed.
+
+  Section MapLoop.
+    Variables (x acc : ident) (tx : cexpr) (gt : gexpr) (te tt : sty) (cenv : cenv) (gvars : list (ident * gval)).
+    Hypothesis Hxa : bytes_eqb x acc = false.
+    Hypothesis Htt : boxable tt = true.
+    Hypothesis Hbody : forall v w a, vrel te v w ->
+      R tt (CE ((x, CV v) :: (acc, a) :: cenv) tx) (GE ((x, w) :: gvars) gt).
+
+    (* map: @result starts []; step @result + [t] *)
+    Lemma map_loop vs ws : Forall2 (vrel te) vs ws -> forall (gacc : list gval) (a : cres),
+      ((exists l, a = CV (VList l) /\ length l = length gacc) \/ a = CErr) ->
+      exists ws' aN, go_map (fun w => GE ((x, w) :: gvars) gt) ws gacc = GV (GIface ws') /\
+        cel_fold cenv x acc (EConst (KBool true)) (ECall2 FAdd (EIdent acc) (EList [tx])) vs a = Some aN /\
+        (aN = CErr \/ exists l', aN = CV (VList l') /\ length l' = length ws') /\
+        (length ws' <= length gacc + length ws)%nat.
+    Proof.
+      induction 1 as [|v w vs ws Hvw _ IH]; intros gacc a Ha.
+      - exists (rev gacc), a. split; [reflexivity|]. split; [reflexivity|]. rewrite rev_length. split; [|cbn; lia].
+        destruct Ha as [[l [-> Hl]] | ->]; eauto.
+      - cbn [go_map cel_fold].
+        destruct (Hbody v w a Hvw) as [v0 [wv [Hg [Hv Hc]]]]. rewrite Hg.
+        pose proof (boxable_default tt v0 wv Htt Hv) as Hd.
+        change (CE ((x, CV v) :: (acc, a) :: cenv) (EConst (KBool true))) with (Some (CV (VBool true))). cbv iota.
+        change (CE ((x, CV v) :: (acc, a) :: cenv) (ECall2 FAdd (EIdent acc) (EList [tx])))
+          with (match CE ((x, CV v) :: (acc, a) :: cenv) (EIdent acc), CE ((x, CV v) :: (acc, a) :: cenv) (EList [tx]) with
+                | Some p, Some q => Some (lift2 cadd p q) | _, _ => None end).
+        change (CE ((x, CV v) :: (acc, a) :: cenv) (EIdent acc)) with (Some (clookup ((x, CV v) :: (acc, a) :: cenv) acc)).
+        cbn [clookup]. rewrite Hxa, bytes_eqb_refl.
+        assert (El : CE ((x, CV v) :: (acc, a) :: cenv) (EList [tx]) =
+                     match CE ((x, CV v) :: (acc, a) :: cenv) tx with
+                     | Some (CV u) => Some (CV (VList [u])) | Some CErr => Some CErr | None => None end).
+        { cbn [ceval]. destruct (CE ((x, CV v) :: (acc, a) :: cenv) tx) as [[u|]|]; reflexivity. }
+        rewrite El.
+        set (w' := match default_type wv with GBoxed u => u | u => u end).
+        assert (Hgo : forall rest, match default_type wv with
+                                   | GNilV => GStuck
+                                   | w'0 => go_map (fun w0 => GE ((x, w0) :: gvars) gt) rest (match w'0 with GBoxed u => u | u => u end :: gacc)
+                                   end = go_map (fun w0 => GE ((x, w0) :: gvars) gt) rest (w' :: gacc)).
+        { intro rest. unfold w'. destruct (default_type wv); try reflexivity. congruence. }
+        rewrite Hgo.
+        destruct Hc as [Hc | Hc]; rewrite Hc.
+        + destruct Ha as [[l [-> Hl]] | ->]; cbn [lift2 cadd].
+          * destruct (IH (w' :: gacc) (CV (VList (l ++ [v0])))) as [ws' [aN [Hr [Hf [Hm Hn]]]]].
+            { left. exists (l ++ [v0]). split; [reflexivity|]. rewrite app_length. cbn. lia. }
+            rewrite Hf, Hr. exists ws', aN. repeat split; auto. cbn [length] in *. lia.
+          * destruct (IH (w' :: gacc) CErr (or_intror eq_refl)) as [ws' [aN [Hr [Hf [Hm Hn]]]]].
+            rewrite Hf, Hr. exists ws', aN. repeat split; auto. cbn [length] in *. lia.
+        + assert (E : forall vs' aN', cel_fold cenv x acc (EConst (KBool true)) (ECall2 FAdd (EIdent acc) (EList [tx])) vs' CErr = Some aN' -> aN' = CErr).
+          { induction vs' as [|v' vs' IHv]; intros aN' H; [cbn in H; congruence|].
+            cbn [cel_fold] in H.
+            change (CE ((x, CV v') :: (acc, CErr) :: cenv) (EConst (KBool true))) with (Some (CV (VBool true))) in H. cbv iota in H.
+            change (CE ((x, CV v') :: (acc, CErr) :: cenv) (ECall2 FAdd (EIdent acc) (EList [tx])))
+              with (match CE ((x, CV v') :: (acc, CErr) :: cenv) (EIdent acc), CE ((x, CV v') :: (acc, CErr) :: cenv) (EList [tx]) with
+                    | Some p, Some q => Some (lift2 cadd p q) | _, _ => None end) in H.
+            change (CE ((x, CV v') :: (acc, CErr) :: cenv) (EIdent acc)) with (Some (clookup ((x, CV v') :: (acc, CErr) :: cenv) acc)) in H.
+            cbn [clookup] in H. rewrite Hxa, bytes_eqb_refl in H. cbn [lift2] in H.
+            destruct (CE ((x, CV v') :: (acc, CErr) :: cenv) (EList [tx])); [|discriminate]. apply IHv; exact H. }
+          assert (Hst : match a with CV _ | CErr => lift2 cadd a CErr end = CErr) by (destruct a; reflexivity).
+          assert (Hst' : lift2 cadd a CErr = CErr) by (destruct a; reflexivity). rewrite Hst'.
+          destruct (IH (w' :: gacc) CErr (or_intror eq_refl)) as [ws' [aN [Hr [Hf [Hm Hn]]]]].
+          rewrite Hf, Hr. exists ws', aN. split; [reflexivity|]. split; [reflexivity|]. split; [left; eapply E; eassumption|].
+          cbn [length] in *; lia.
+    Qed.
+  End MapLoop.
+
+  Lemma env_ok_bind G cenv gvars x acc te v w a :
+    env_ok G cenv gvars -> vrel te v w ->
+    bytes_eqb x acc = false -> bytes_eqb x s_value = false -> bytes_eqb x s_this = false ->
+    bytes_eqb acc s_value = false -> bytes_eqb acc s_this = false -> glookup (te_vars G) acc = None ->
+    env_ok (bind_var G x te) ((x, CV v) :: (acc, a) :: cenv) ((x, w) :: gvars).
+  Proof.
+    intros [Hf [Hn [Hval [Hthis Hvars]]]] Hvw Hxa Hxv Hxt Hav Hat Hacc.
+    assert (Sym : forall p q, bytes_eqb p q = false -> bytes_eqb q p = false) by (intros p q H; rewrite bytes_eqb_sym; exact H).
+    unfold env_ok, bind_var. cbn [te_fields te_fname te_vars]. repeat split; try assumption.
+    - cbn [clookup]. rewrite Hxv, Hav. exact Hval.
+    - cbn [existsb fst]. intro H. apply orb_false_iff in H as [_ H]. cbn [clookup]. rewrite Hxt, Hat. apply Hthis. exact H.
+    - intros y t Hy Hg. cbn [glookup] in Hg. cbn [clookup glookup]. destruct (bytes_eqb x y) eqn:Exy.
+      + inversion Hg; subst t. eauto.
+      + destruct (bytes_eqb acc y) eqn:Eay.
+        * apply bytes_eqb_eq in Eay. subst y. congruence.
+        * apply Hvars; assumption.
+  Qed.
+
+  Lemma macro_of_spec x acc init cond step res m :
+    macro_of x acc init cond step res = Some m ->
+    res = (match m with MExistsOne => ECall2 FEq (EIdent acc) (EConst (KInt 1)) | _ => EIdent acc end) /\
+    match m with
+    | MAll => init = EConst (KBool true) /\ cond = ECall1 FNotStrictlyFalse (EIdent acc) /\ exists body, step = ECall2 FAnd (EIdent acc) body
+    | MExists => init = EConst (KBool false) /\ cond = ECall1 FNotStrictlyFalse (ECall1 FNot (EIdent acc)) /\ exists body, step = ECall2 FOr (EIdent acc) body
+    | MExistsOne => init = EConst (KInt 0) /\ cond = EConst (KBool true) /\
+                    exists body, step = ECall3 FTernary body (ECall2 FAdd (EIdent acc) (EConst (KInt 1))) (EIdent acc)
+    | MFilter => init = EList [] /\ cond = EConst (KBool true) /\
+                 exists body, step = ECall3 FTernary body (ECall2 FAdd (EIdent acc) (EList [EIdent x])) (EIdent acc)
+    | MMap => init = EList [] /\ cond = EConst (KBool true) /\ exists t, step = ECall2 FAdd (EIdent acc) (EList [t])
+    end.
+  Proof.
+    assert (A : forall e, match e with EIdent y => bytes_eqb y acc | _ => false end = true -> e = EIdent acc).
+    { intros e H. destruct e; try discriminate. apply bytes_eqb_eq in H. subst. reflexivity. }
+    unfold macro_of. intro H.
+    destruct init; try discriminate.
+    - (* constants *)
+      destruct k; try discriminate.
+      + destruct b.
+        * destruct cond; try discriminate. destruct fn; try discriminate. destruct step; try discriminate. destruct fn; try discriminate.
+          match type of H with (if ?c then _ else _) = _ => destruct c eqn:E; [|discriminate] end. inversion H; subst m.
+          apply andb_true_iff in E as [E E3]. apply andb_true_iff in E as [E1 E2].
+          apply A in E1, E2, E3. subst. repeat split; eauto.
+        * destruct cond; try discriminate. destruct fn; try discriminate. destruct cond; try discriminate. destruct fn; try discriminate.
+          destruct step; try discriminate. destruct fn; try discriminate.
+          match type of H with (if ?c then _ else _) = _ => destruct c eqn:E; [|discriminate] end. inversion H; subst m.
+          apply andb_true_iff in E as [E E3]. apply andb_true_iff in E as [E1 E2].
+          apply A in E1, E2, E3. subst. repeat split; eauto.
+      + destruct z; try discriminate. destruct cond; try discriminate. destruct k; try discriminate. destruct b; try discriminate.
+        destruct step; try discriminate. destruct fn; try discriminate. destruct step2; try discriminate. destruct fn; try discriminate.
+        destruct step2_2; try discriminate. destruct k; try discriminate. destruct z; try discriminate. destruct p; try discriminate.
+        destruct res; try discriminate. destruct fn; try discriminate. destruct res2; try discriminate. destruct k; try discriminate.
+        destruct z; try discriminate. destruct p; try discriminate.
+        match type of H with (if ?c then _ else _) = _ => destruct c eqn:E; [|discriminate] end. inversion H; subst m.
+        apply andb_true_iff in E as [E E3]. apply andb_true_iff in E as [E1 E2].
+        apply A in E1, E2, E3. subst. repeat split; eauto.
+    - (* [] *)
+      destruct es; try discriminate. destruct cond; try discriminate. destruct k; try discriminate. destruct b; try discriminate.
+      destruct step; try discriminate.
+      + (* map: acc + [t] *)
+        destruct fn; try discriminate. destruct step2; try discriminate. destruct es as [|t0 [|]]; try discriminate.
+        match type of H with (if ?c then _ else _) = _ => destruct c eqn:E; [|discriminate] end. inversion H; subst m.
+        apply andb_true_iff in E as [E1 E2]. apply A in E1, E2. subst. repeat split; eauto.
+      + (* filter *)
+        destruct fn; try discriminate. destruct step2; try discriminate. destruct fn; try discriminate.
+        destruct step2_2; try discriminate. destruct es as [|y0 [|? ?]]; try discriminate; try (destruct y0; discriminate). destruct y0; try discriminate.
+        match type of H with (if ?c then _ else _) = _ => destruct c eqn:E; [|discriminate] end. inversion H; subst m.
+        apply andb_true_iff in E as [E E4]. apply andb_true_iff in E as [E E3]. apply andb_true_iff in E as [E1 E2].
+        apply A in E1, E2, E3. apply bytes_eqb_eq in E4. subst. repeat split; eauto.
+  Qed.
+
   Lemma sound_aux : forall n e, (csize e < n)%nat -> forall G t g cenv gvars,
      simple e = true -> cty G e = Some t -> TR e = Some g -> env_ok G cenv gvars -> R t (CE cenv e) (GE gvars g).
   Proof.
@@ -681,6 +1184,148 @@ Section Sound.
         destruct (is_strlike ts && is_strlike tp) eqn:Es; [|discriminate]. apply andb_true_iff in Es as [Es Ep]. inv Hty.
         destruct (TR e2) as [gp|] eqn:Er; [|discriminate]. cbn [omap] in Htr. inv Htr.
         apply (strfn_case cenv gvars FEndsWith SHasSuffix e1 e2 gs gp ts tp I Es Ep); auto.
+    - (* ECompr *)
+      rename e1 into r, e2 into init, e3 into cond, e4 into step, e5 into res.
+      apply andb_true_iff in Hs as [Hsr Hsb].
+      cbn [cty] in Hty.
+      match type of Hty with (if ?c then _ else _) = _ => destruct c eqn:En; [discriminate|] end.
+      repeat (apply orb_false_iff in En as [En ?]).
+      assert (Hacc : glookup (te_vars G) accu_var = None) by (destruct (glookup (te_vars G) accu_var); [discriminate|reflexivity]).
+      destruct (cty G r) as [tr0|] eqn:Er; [|discriminate]. destruct tr0; try discriminate.
+      rename tr0 into te.
+      destruct (macro_of iter_var accu_var init cond step res) as [m|] eqn:Em; [|discriminate].
+      destruct (mentions accu_var r); [discriminate|].
+      destruct (macro_of_spec _ _ _ _ _ _ _ Em) as [Hres Hshape].
+      assert (IHr : forall gr, TR r = Some gr -> R (SList te) (CE cenv r) (GE gvars gr)).
+      { intros. apply (IH r) with (G := G); try assumption.
+        exact (Nat.lt_le_trans _ _ _ (proj1 (csize_compr iter_var r accu_var init cond step res)) (proj1 (Nat.lt_succ_r _ _) Hsz)). }
+      assert (Hxa : bytes_eqb iter_var accu_var = false) by assumption.
+      assert (Hacc_tr : TR (EIdent accu_var) = Some (GVar accu_var)).
+      { cbn [tr]. match goal with H : bytes_eqb accu_var s_value = false |- _ => rewrite H end.
+        match goal with H : bytes_eqb accu_var s_this = false |- _ => rewrite H end. reflexivity. }
+      (* the translation: range, and the part of the step that is kept *)
+      change (TR (ECompr iter_var r accu_var init cond step res)) with
+        (obind (TR r) (fun gr => obind (TR init) (fun gi => obind (TR step) (fun gs =>
+           tr_compr iter_var step gr gi gs
+             (match step with
+              | ECall2 FAnd _ c | ECall2 FOr _ c | ECall3 FTernary c _ _ => TR c
+              | ECall2 FAdd _ (EList (t :: _)) => TR t
+              | _ => None
+              end))))) in Htr.
+      destruct (TR r) as [gr|] eqn:Egr; [|discriminate]. cbn [obind] in Htr.
+      destruct (IHr gr eq_refl) as [v0 [wr [Hgr [[vs [ws [-> [-> [Hall Hlen]]]]] Hcr]]]].
+      (* body lemma: under one more binding *)
+      assert (Hb : forall body tb gb, (csize body < n)%nat -> simple body = true ->
+                   cty (bind_var G iter_var te) body = Some tb -> TR body = Some gb ->
+                   forall v w a, vrel te v w ->
+                   R tb (CE ((iter_var, CV v) :: (accu_var, a) :: cenv) body) (GE ((iter_var, w) :: gvars) gb)).
+      { intros body tb gb Hsize Hsb' Htb Hgb v w a Hvw.
+        apply (IH body Hsize) with (G := bind_var G iter_var te); try assumption.
+        apply env_ok_bind; assumption. }
+      destruct m; destruct Hshape as [-> [-> [body ->]]]; subst res; cbn [simple] in Hsb.
+      + (* all *)
+        assert (Hbsz : (csize body < n)%nat)
+          by exact (lt_chain _ _ _ _ (proj2 (csize_call2 FAnd (EIdent accu_var) body)) (proj2 (csize_compr _ _ _ _ _ _ _)) Hsz).
+        destruct (mentions accu_var body); [discriminate|].
+        destruct (cty (bind_var G iter_var te) body) as [tb|] eqn:Etb; [|discriminate]. destruct tb; try discriminate. inv Hty.
+        cbn [tr tr_const obind] in Htr.
+        repeat match goal with H : bytes_eqb accu_var _ = false |- _ => rewrite H in Htr end. cbn [obind] in Htr.
+        destruct (TR body) as [gb|] eqn:Egb; [|discriminate]. cbn [obind omap tr_compr] in Htr. inv Htr.
+        assert (Hbody := Hb body SBool gb Hbsz Hsb Etb Egb).
+        destruct (all_loop iter_var accu_var body gb te cenv gvars Hxa Hbody vs ws Hall TT) as [rb [aN [Hgo [Hfold Hm]]]].
+        rewrite (gall_eval gvars iter_var gr gb ws Hgr), Hgo. apply R_bool_intro.
+        destruct Hcr as [Hcr | Hcr].
+        * rewrite (compr_eval cenv iter_var r accu_var (EConst (KBool true)) _ _ _ vs (CV (VBool true)) Hcr eq_refl). cbn [tri_res] in Hfold. rewrite Hfold.
+          cbn [ceval clookup]. rewrite bytes_eqb_refl. destruct Hm as [-> | ->]; auto.
+        * right. cbn [ceval]. rewrite Hcr. reflexivity.
+      + (* exists *)
+        assert (Hbsz : (csize body < n)%nat)
+          by exact (lt_chain _ _ _ _ (proj2 (csize_call2 FOr (EIdent accu_var) body)) (proj2 (csize_compr _ _ _ _ _ _ _)) Hsz).
+        destruct (mentions accu_var body); [discriminate|].
+        destruct (cty (bind_var G iter_var te) body) as [tb|] eqn:Etb; [|discriminate]. destruct tb; try discriminate. inv Hty.
+        cbn [tr tr_const obind] in Htr.
+        repeat match goal with H : bytes_eqb accu_var _ = false |- _ => rewrite H in Htr end. cbn [obind] in Htr.
+        destruct (TR body) as [gb|] eqn:Egb; [|discriminate]. cbn [obind omap tr_compr] in Htr. inv Htr.
+        assert (Hbody := Hb body SBool gb Hbsz Hsb Etb Egb).
+        destruct (exists_loop iter_var accu_var body gb te cenv gvars Hxa Hbody vs ws Hall TF) as [rb [aN [Hgo [Hfold Hm]]]].
+        rewrite (gexists_eval gvars iter_var gr gb ws Hgr), Hgo. apply R_bool_intro.
+        destruct Hcr as [Hcr | Hcr].
+        * rewrite (compr_eval cenv iter_var r accu_var (EConst (KBool false)) _ _ _ vs (CV (VBool false)) Hcr eq_refl). cbn [tri_res] in Hfold. rewrite Hfold.
+          cbn [ceval clookup]. rewrite bytes_eqb_refl. destruct Hm as [-> | ->]; auto.
+        * right. cbn [ceval]. rewrite Hcr. reflexivity.
+      + (* exists_one *)
+        assert (Hbsz : (csize body < n)%nat)
+          by exact (lt_chain _ _ _ _ (csize_call3 FTernary body _ _) (proj2 (csize_compr _ _ _ _ _ _ _)) Hsz).
+        destruct (mentions accu_var body); [discriminate|].
+        destruct (cty (bind_var G iter_var te) body) as [tb|] eqn:Etb; [|discriminate]. destruct tb; try discriminate. inv Hty.
+        cbn [tr tr_const obind bin_of] in Htr.
+        repeat match goal with H : bytes_eqb accu_var _ = false |- _ => rewrite H in Htr end. cbn [obind omap] in Htr.
+        destruct (TR body) as [gb|] eqn:Egb; [|discriminate]. cbn [obind omap tr_compr has_iface] in Htr. inv Htr.
+        assert (Hbody := Hb body SBool gb Hbsz Hsb Etb Egb).
+        destruct (exists_one_loop iter_var accu_var body gb te cenv gvars Hxa Hbody vs ws Hall 0 (CV (VInt 0)) (or_introl eq_refl)) as [rb [aN [Hgo [Hfold Hm]]]].
+        rewrite (gexists_one_eval gvars iter_var gr gb ws Hgr), Hgo. apply R_bool_intro.
+        destruct Hcr as [Hcr | Hcr].
+        * rewrite (compr_eval cenv iter_var r accu_var (EConst (KInt 0)) _ _ _ vs (CV (VInt 0)) Hcr eq_refl). rewrite Hfold.
+          cbn [ceval clookup const_val]. rewrite bytes_eqb_refl.
+          destruct Hm as [-> | [m [-> ->]]]; [right; reflexivity|left].
+          unfold ccmp. rewrite cequal_int. reflexivity.
+        * right. cbn [ceval]. rewrite Hcr. reflexivity.
+      + (* filter *)
+        assert (Hbsz : (csize body < n)%nat)
+          by exact (lt_chain _ _ _ _ (csize_call3 FTernary body _ _) (proj2 (csize_compr _ _ _ _ _ _ _)) Hsz).
+        destruct (mentions accu_var body); [discriminate|].
+        destruct (cty (bind_var G iter_var te) body) as [tb|] eqn:Etb; [|discriminate]. destruct tb; try discriminate. inv Hty.
+        cbn [tr tr_const obind bin_of] in Htr.
+        repeat match goal with H : bytes_eqb accu_var _ = false |- _ => rewrite H in Htr end.
+        repeat match goal with H : bytes_eqb iter_var _ = false |- _ => rewrite H in Htr end. cbn [obind omap] in Htr.
+        destruct (TR body) as [gb|] eqn:Egb; [|discriminate]. cbn [obind omap tr_compr has_iface has_tern orb] in Htr. inv Htr.
+        assert (Hbody := Hb body SBool gb Hbsz Hsb Etb Egb).
+        destruct (filter_loop iter_var accu_var body gb te cenv gvars Hxa Hbody vs ws Hall [] (CV (VList [])))
+          as [ws' [aN [Hgo [Hfold [Hm Hnn]]]]]; [left; exists []; auto|].
+        rewrite (gfilter_eval gvars iter_var gr gb ws Hgr), Hgo.
+        assert (Hb64 : in_i64 (Z.of_nat (length ws')) = true).
+        { clear -Hlen Hnn. apply in_i64_spec. apply in_i64_spec in Hlen. cbn [length] in Hnn. lia. }
+        destruct Hcr as [Hcr | Hcr].
+        * rewrite (compr_eval cenv iter_var r accu_var (EList []) _ _ _ vs (CV (VList [])) Hcr eq_refl). rewrite Hfold.
+          cbn [ceval clookup]. rewrite bytes_eqb_refl.
+          destruct Hm as [-> | [l' [-> Hl']]].
+          -- exists (VList (map (fun _ => VNull) ws')), (GIface ws'). split; [reflexivity|]. split; [|right; reflexivity].
+             exists (map (fun _ => VNull) ws'), ws'. rewrite map_length. auto.
+          -- exists (VList l'), (GIface ws'). split; [reflexivity|]. split; [|left; reflexivity]. exists l', ws'. auto.
+        * exists (VList (map (fun _ => VNull) ws')), (GIface ws'). split; [reflexivity|]. split.
+          -- exists (map (fun _ => VNull) ws'), ws'. rewrite map_length. auto.
+          -- right. cbn [ceval]. rewrite Hcr. reflexivity.
+      + (* map *)
+        assert (Hbsz : (csize body < n)%nat)
+          by exact (lt_chain4 _ _ _ _ _ (csize_list1 body) (proj2 (csize_call2 FAdd (EIdent accu_var) (EList [body]))) (proj2 (csize_compr _ _ _ _ _ _ _)) Hsz).
+        apply andb_true_iff in Hsb as [Hsb Hnt].
+        destruct (mentions accu_var body); [discriminate|].
+        destruct (cty (bind_var G iter_var te) body) as [tb|] eqn:Etb; [|discriminate].
+        assert (Hbox : boxable tb = true /\ t = SIfaces).
+        { destruct tb; try discriminate; try (inv Hty; split; reflexivity).
+          destruct (in_kind IInt z) eqn:Ez; [|discriminate]. inv Hty. split; [exact Ez|reflexivity]. }
+        destruct Hbox as [Hbox ->]. clear Hty.
+        destruct (TR body) as [gb|] eqn:Egb; [|discriminate].
+        cbn [tr tr_const obind bin_of] in Htr.
+        repeat match goal with H : bytes_eqb accu_var _ = false |- _ => rewrite H in Htr end. rewrite Egb in Htr. cbn [obind omap] in Htr.
+        unfold operand_of in Htr. cbn [go_prec call_fn Nat.eqb] in Htr. cbn [tr_compr has_iface has_tern orb] in Htr.
+        destruct (has_tern gb) eqn:Eht; [discriminate|]. cbn [orb omap] in Htr. inv Htr.
+        assert (Hbody := Hb body tb gb Hbsz Hsb Etb Egb).
+        destruct (map_loop iter_var accu_var body gb te tb cenv gvars Hxa Hbox Hbody vs ws Hall [] (CV (VList [])))
+          as [ws' [aN [Hgo [Hfold [Hm Hnn]]]]]; [left; exists []; auto|].
+        rewrite (gmap_eval gvars iter_var gr gb ws Hgr), Hgo.
+        assert (Hb64 : in_i64 (Z.of_nat (length ws')) = true).
+        { clear -Hlen Hnn. apply in_i64_spec. apply in_i64_spec in Hlen. cbn [length] in Hnn. lia. }
+        destruct Hcr as [Hcr | Hcr].
+        * rewrite (compr_eval cenv iter_var r accu_var (EList []) _ _ _ vs (CV (VList [])) Hcr eq_refl). rewrite Hfold.
+          cbn [ceval clookup]. rewrite bytes_eqb_refl.
+          destruct Hm as [-> | [l' [-> Hl']]].
+          -- exists (VList (map (fun _ => VNull) ws')), (GIface ws'). split; [reflexivity|]. split; [|right; reflexivity].
+             exists (map (fun _ => VNull) ws'), ws'. rewrite map_length. auto.
+          -- exists (VList l'), (GIface ws'). split; [reflexivity|]. split; [|left; reflexivity]. exists l', ws'. auto.
+        * exists (VList (map (fun _ => VNull) ws')), (GIface ws'). split; [reflexivity|]. split.
+          -- exists (map (fun _ => VNull) ws'), ws'. rewrite map_length. auto.
+          -- right. cbn [ceval]. rewrite Hcr. reflexivity.
   Qed.
 
   Definition G0 : tenv := {| te_fields := fts; te_fname := fname; te_vars := [] |}.
@@ -719,7 +1364,7 @@ Theorem cel_condition_sound re_match parse_float fmt_g parse_dur re_ok fts fname
   (forall p, re_ok p = true -> forall s, re_match p s <> None) ->
   (forall s z, parse_dur s = Some z -> in_i64 z = true) ->
   struct_ok fts rho = true ->
-  proved_fragment fts fname e = true ->
+  proved_fragment re_ok fts fname e = true ->
   cel_condition fname re_ok src (Some e) = Some cond ->
   exists r, geval re_match parse_float fmt_g parse_dur (go_fields rho) [] cond = GV (GBool r) /\
             (forall b, ceval re_match parse_float fmt_g parse_dur (cel_env fname rho) e = Some (CV (VBool b)) -> r = negb b).
